@@ -403,3 +403,90 @@ Section ExprAfterSubst.
     destruct fv as [|c fv']; [congruence|]. rewrite Hpa, Hd. cbn [pbind]. reflexivity.
   Qed.
 End ExprAfterSubst.
+
+(* ---- components with several properties -------------------------------------------------- *)
+
+Section Comp.
+  Variable fx : bool.
+  Variable cfg : bytes -> cval.
+  Variable budget : option nat.
+
+  (* a component with one property is the one-property pipeline *)
+  Lemma run_component_single : forall order p,
+    run_component fx cfg budget order [p] =
+    match run_stages fx cfg budget (cp_eval p) (cp_decode p) (cp_verdict p) order (cp_state p) with
+    | POk st => COk [cp_with p st]
+    | PErr e => CErr e
+    end.
+  Proof.
+    induction order as [|id rest IH]; intros p.
+    - destruct p; reflexivity.
+    - cbn [run_component run_stages stage_all]. unfold cp_stage.
+      destruct (stage_fun fx cfg budget (cp_eval p) (cp_decode p) (cp_verdict p) id (cp_state p)) as [st|e];
+        [|reflexivity].
+      rewrite (IH (cp_with p st)). reflexivity.
+  Qed.
+
+  Lemma cp_with_self : forall p, cp_with p (cp_state p) = p.
+  Proof. intros [e d v s]. reflexivity. Qed.
+
+  Lemma cp_stage_validate : forall p,
+    cp_stage fx cfg budget id_validate p =
+    if cp_violates p then PErr EValidate else POk (cp_state p).
+  Proof.
+    intros p. unfold cp_stage, cp_violates, id_validate. cbn [stage_fun]. unfold stage_validate.
+    destruct (ps_kind (cp_state p)); try reflexivity;
+      destruct (ps_validate (cp_state p)); cbn [andb negb]; try reflexivity;
+      destruct (cp_verdict p (ps_field (cp_state p))); reflexivity.
+  Qed.
+
+  (* the validate processor rejects the component exactly when SOME property violates its
+     constraints - wherever it stands among the properties - and leaves everything as it is
+     otherwise *)
+  Lemma stage_all_validate : forall ps,
+    stage_all fx cfg budget id_validate ps =
+    if existsb cp_violates ps then CErr EValidate else COk ps.
+  Proof.
+    induction ps as [|p r IH]; [reflexivity|].
+    cbn [stage_all existsb]. rewrite cp_stage_validate.
+    destruct (cp_violates p); cbn [orb]; [reflexivity|].
+    rewrite IH. destruct (existsb cp_violates r); [reflexivity|].
+    rewrite cp_with_self. reflexivity.
+  Qed.
+End Comp.
+
+(* ---- the processors active when an eager post-processor component is created ------------- *)
+
+Lemma before_b_in_before_id : forall a k l, before_b a k l = true -> In a (before_id k l).
+Proof.
+  intros a k. induction l as [|x r IH]; intros H.
+  - discriminate.
+  - unfold before_b in H. cbn [index_of] in H. cbn [before_id].
+    destruct (Nat.eqb x k) eqn:Ek.
+    + destruct (Nat.eqb x a); [discriminate|].
+      destruct (index_of a r); cbn [option_map] in H; discriminate.
+    + destruct (Nat.eqb x a) eqn:Ea.
+      * apply Nat.eqb_eq in Ea. left. exact Ea.
+      * right. apply IH. unfold before_b.
+        destruct (index_of a r) as [i|]; cbn [option_map] in H; [|discriminate].
+        destruct (index_of k r) as [j|]; cbn [option_map] in H; [|discriminate].
+        exact H.
+  Qed.
+
+(* a processor whose class / Order() is strictly below the holder's is active when the holder is
+   created: in particular every Priority / Ordered processor for an unordered holder *)
+Lemma active_when_lt : forall a facts, a <> id_holder ->
+  count_pid a facts = 1%nat -> count_pid id_holder facts = 1%nat -> lt_ids a id_holder facts = true ->
+  In a (active_order facts).
+Proof.
+  intros a facts Hne Ca Ch Hlt. unfold active_order, stage_order.
+  apply before_b_in_before_id. apply lt_ids_before; assumption.
+Qed.
+
+Lemma before_id_notin : forall k l, ~ In k l -> before_id k l = l.
+Proof.
+  intros k. induction l as [|x r IH]; intros H; [reflexivity|].
+  cbn [before_id]. destruct (Nat.eqb x k) eqn:E.
+  - apply Nat.eqb_eq in E. exfalso. apply H. left. exact E.
+  - f_equal. apply IH. intros Hin. apply H. right. exact Hin.
+Qed.
